@@ -117,8 +117,26 @@ func runMem(c Case, tr *Tracer) {
 	}
 	cm, sm := codec.NewCMPPCodec(), codec.NewSMPPCodec()
 	conn := &scriptedConn{fault: "eof"}
+	// the same call twice in a row (a function-local pool or cache is hit again while the first result is held), and scripted
+	// follow-ups (format the PDU that was just decoded)
+	forceOp, forceSub, lastSub, bodyNext := -1, -1, -1, false
+	var formatNext *liveResult
 	for s := 0; s < steps; s++ {
-		switch rr.Intn(15) {
+		if forceSub == -2 {
+			forceSub = -1
+			if forceOp == 7 {
+				forceSub = lastSub
+			}
+		}
+		op := rr.Intn(15)
+		if forceOp >= 0 {
+			op, forceOp = forceOp, -1
+		} else if r := rr.Intn(8); r == 0 {
+			forceOp, forceSub = op, -2 // -2: the sub-case of this step, once known
+		} else if r == 1 {
+			op, bodyNext = 2, true
+		}
+		switch op {
 		case 0, 1: // encode, then the caller scribbles over the returned bytes
 			tn := typeNames[rr.Intn(len(typeNames))]
 			a := defaultAssign(rr, tn, true)
@@ -148,7 +166,18 @@ func runMem(c Case, tr *Tracer) {
 			if rr.Intn(3) == 0 { // the PDUs with lists, bodies and optional parameters come up more often
 				tn = richTypes()[rr.Intn(len(richTypes()))]
 			}
+			if bodyNext {
+				tn = []string{"smpp34.SubmitSm", "smpp34.DeliverSm", "cmpp20.PduSubmit", "cmpp30.Deliver", "smgp30.Submit", "sgip12.Deliver"}[rr.Intn(6)]
+			}
 			a := defaultAssign(rr, tn, true)
+			if bodyNext {
+				for _, f := range layouts[tn].Fields {
+					if f.K == "B" {
+						a[f.N] = fval{b: randBytes(rr, 67+rr.Intn(180))}
+					}
+				}
+				fixCounts(tn, a)
+			}
 			if tf := tailField(tn); tf != "" && rr.Intn(2) == 0 {
 				// binary optional parameters (sar_* and the like)
 				a[tf] = fval{tlvs: []tlvVal{{0x020c, []byte{0, byte(rr.Intn(256))}}, {0x020e, []byte{byte(rr.Intn(32))}}, {5 + rr.Intn(3), randBytes(rr, 1+rr.Intn(6))}}}
@@ -185,6 +214,9 @@ func runMem(c Case, tr *Tracer) {
 				in[i] = 0xEE
 			}
 			emit(Ev{"ev": "Scribble", "i": iid}, "Scribble")
+			if bodyNext {
+				bodyNext, forceOp, formatNext = false, 4, lr
+			}
 		case 12: // the blocking frame extractor hands out a frame of the caller's own
 			tn := typeNames[1+rr.Intn(len(typeNames)-1)]
 			img, err := build(tn, defaultAssign(rr, tn, true)).IEncode()
@@ -386,7 +418,9 @@ func runMem(c Case, tr *Tracer) {
 		case 4: // String() of a PDU: a fresh one, or (every second time) a decoded one the caller still holds
 			tn := typeNames[rr.Intn(len(typeNames))]
 			var obj interface{} = build(tn, defaultAssign(rr, tn, true))
-			if rr.Intn(2) == 0 {
+			if formatNext != nil {
+				tn, obj, formatNext = formatNext.tn, formatNext.pdu, nil
+			} else if rr.Intn(2) == 0 {
 				var decs []*liveResult
 				for _, lr := range live {
 					if lr.kind == "decode" && lr.pdu != nil {
@@ -462,7 +496,12 @@ func runMem(c Case, tr *Tracer) {
 			var out, ref []byte
 			var err error
 			name := ""
-			switch rr.Intn(16) {
+			sub := rr.Intn(17)
+			if forceSub >= 0 {
+				sub, forceSub = forceSub, -1
+			}
+			lastSub = sub
+			switch sub {
 			case 0, 4, 5:
 				name = "gsm7encoding.Decode"
 				sep, e := gsm7encoding.Encode(txt)
@@ -475,6 +514,24 @@ func runMem(c Case, tr *Tracer) {
 				name = "gsm7encoding.Encode"
 				out, err = gsm7encoding.Encode(txt)
 				ref, _ = gsm7encoding.Encode(txt)
+			case 16: // the caller packs a held septet result window by window (what a splitter of its own does)
+				sep, e := gsm7encoding.Encode(textFrom(rr, 40+rr.Intn(200), "abc XYZ 0189@[]{}"))
+				if e != nil {
+					continue
+				}
+				hid := nextID
+				nextID++
+				hl := &liveResult{id: hid, kind: "codec", tn: "gsm7encoding.Encode", owned: sep}
+				hl.read = func() string { return string(hl.owned) }
+				add(hl)
+				emit(Ev{"ev": "Codec", "r": hid, "fn": "gsm7encoding.Encode", "same": true}, "Codec")
+				w := []int{7, 15, 8, 153, 152, 151, 23}[rr.Intn(7)]
+				if w > len(sep) {
+					w = 7
+				}
+				name = "gsm7encoding.Pack"
+				out = gsm7encoding.Pack(sep[:w])
+				ref = gsm7encoding.Pack(append([]byte{}, sep[:w]...))
 			case 2:
 				name = "gsm7encoding.Pack"
 				sep, e := gsm7encoding.Encode(txt)
